@@ -57,7 +57,8 @@ func bfsOps() []op {
 			}
 		}
 	}
-	ops = append(ops, op{kind: opSave}, op{kind: opLoad}, op{kind: opLoadStrict}, op{kind: opSaveWipeLoad}, op{kind: opRestart}, op{kind: opReload})
+	ops = append(ops, op{kind: opSave}, op{kind: opLoad}, op{kind: opLoadStrict}, op{kind: opSaveWipeLoad}, op{kind: opRestart}, op{kind: opReload},
+		op{kind: opBreak}, op{kind: opRepair})
 	// whole-layer replaces: all maps of at most two entries (distinct keys) over this pool
 	pool := []entry{
 		{"a/int", cv("float64(5)", lit(float64(5)))},
